@@ -6,6 +6,8 @@ PROPERTIES = {
         "kani_quick": ["k_c06_max_restrictive", "k_layout_sentinel_scalars"],
         "kani_thorough": [],
         "bounded_native": [
+            {"unit": "b_c04_integer_set_expression", "functions": "TryFrom<&Constraint> for PerVisibleRangeConstraints (per_visible.rs): the extensible flag handed to Rasn::int_type_token for components",
+             "bound": "same expressions as under C04, each with/without an extension marker after the element set"},
             {"unit": "b_c06_int_type_serial", "functions": "Integer::int_type (intermediate/types.rs): fold of Constraint::integer_constraints with IntegerType::max_restrictive over serially applied constraints",
              "bound": "1..=2 serial range constraints with ends from {-129,-128,0,10,255,256,65535,70000}, each with/without inner and outer extension marker, non-empty intersection (exhaustive, 14160 cases)"},
         ],
